@@ -5,14 +5,14 @@ From Coq Require Import Lia.
 From Soy Require Import Model.Bytes Model.Num Model.Values Model.Outcome Model.Ast Model.MsgId Model.Compile.
 Open Scope N_scope.
 
-Definition hl := fix hl (l : list node) : nat := match l with [] => O | x :: r => Nat.max (height x) (hl r) end.
-Definition hm := fix hm (l : list (bstr * node)) : nat := match l with [] => O | (_, x) :: r => Nat.max (height x) (hm r) end.
+Definition hl := fix hl (l : list node) : nat := match l with [] => O | x :: r => Nat.max (node_height x) (hl r) end.
+Definition hm := fix hm (l : list (bstr * node)) : nat := match l with [] => O | (_, x) :: r => Nat.max (node_height x) (hm r) end.
 
-Lemma hl_In c l : In c l -> (height c <= hl l)%nat.
+Lemma hl_In c l : In c l -> (node_height c <= hl l)%nat.
 Proof.
   induction l as [|x r IH]; cbn [In hl]; [intros []|]. intros [->|H]; [lia|]. specialize (IH H). lia.
 Qed.
-Lemma hm_In k c l : In (k, c) l -> (height c <= hm l)%nat.
+Lemma hm_In k c l : In (k, c) l -> (node_height c <= hm l)%nat.
 Proof.
   induction l as [|[k' x] r IH]; cbn [In hm]; [intros []|]. intros [[= -> ->]|H]; [lia|]. specialize (IH H). lia.
 Qed.
@@ -30,15 +30,15 @@ Proof.
   destruct (assoc_s k items) as [v|] eqn:E; [|destruct H]. destruct H as [<-|[]]. eapply assoc_s_In', E.
 Qed.
 
-(* the measure that decreases from a node to its children: twice the height,
+(* the measure that decreases from a node to its children: twice the node_height,
    one less for a ListNode (the bodies of plural cases are wrapped in one) *)
 Definition is_list (n : node) : bool := match n with NList _ _ => true | _ => false end.
-Definition rank (n : node) : nat := (2 * height n - (if is_list n then 1 else 0))%nat.
+Definition rank (n : node) : nat := (2 * node_height n - (if is_list n then 1 else 0))%nat.
 
-Lemma height_pos n : (1 <= height n)%nat.
-Proof. destruct n; cbn [height]; lia. Qed.
+Lemma height_pos n : (1 <= node_height n)%nat.
+Proof. destruct n; cbn [node_height]; lia. Qed.
 
-Lemma rank_le n : (rank n <= 2 * height n)%nat.
+Lemma rank_le n : (rank n <= 2 * node_height n)%nat.
 Proof. unfold rank. lia. Qed.
 
 Lemma rank_lt_walk_fuel n : (rank n < walk_fuel n)%nat.
@@ -59,7 +59,7 @@ Lemma children_rank ko n c : In c (children ko n) -> (rank c < rank n)%nat.
 Proof.
   intros H. pose proof (height_pos c) as Hc. pose proof (rank_le c) as Hr.
   destruct n; cbn [children] in H; try (destruct H; fail);
-    bound_children; unfold rank in *; cbn [is_list height] in *; fold hl in *; fold hm in *;
+    bound_children; unfold rank in *; cbn [is_list node_height] in *; fold hl in *; fold hm in *;
     repeat match goal with |- context [if is_list ?x then _ else _] => destruct (is_list x) end; lia.
 Qed.
 
